@@ -344,4 +344,6 @@ RULE = ('Gaussian-integer states of every sector of 2 orbitals; restricted integ
         'anti-Hermitian generators (real for SVD, complex for Takagi) with and without cut-off. non-trivial: residual '
         'tensor with >= 2 distinct non-zero entries')
 NOT_PROVED = ['routes_agree (apply-and-overlap = RDM contraction) is checked through the common oracle, not proved; '
-              'LAPACK SVD / Takagi iterations are certified only through their output']
+              'the operator identity behind the factorisations (product of one-body operators = one-body remainder + two-body '
+              'part) is a theorem (C19_product_of_one_body_operators); that the returned matrices satisfy the tensor equations is '
+              'checked numerically; LAPACK SVD / Takagi iterations are certified only through their output']
